@@ -418,7 +418,8 @@ impl C05 {
 
         match &sc.kind {
             Kind::OneStep(kind, verts) => {
-                let d = mk_decomp(kind, verts);
+                let ids: Vec<usize> = verts.iter().map(|&i| sc.g.built_id(i)).collect();
+                let d = mk_decomp(kind, &ids);
                 let g2 = g.clone();
                 let core = Core::new(dec, 1);
                 let (res, core) = with_sim(core, move || verif_apply_decomp(&g2, &d));
@@ -907,6 +908,9 @@ impl Property for C05 {
                         g.edges.push((v, b, d.coin("o.oh", 1, 3)));
                         g.outputs.push(b);
                     }
+                }
+                if d.coin("o.holes", 1, 4) {
+                    g.holes = (0..g.verts.len()).map(|_| if d.coin("o.hole", 1, 3) { 1 + d.choose("o.hole.k", 2) as u8 } else { 0 }).collect();
                 }
                 Sc {
                     g,
